@@ -48,7 +48,7 @@ REGIONS = {
                                                                      "sbepp::detail::byteswap", "sbepp::detail::get_static_field_view",
                                                                      "sbepp::detail::get_dynamic_field_view",
                                                                      "sbepp::detail::get_first_dynamic_field_view",
-                                                                     "sbepp::detail::get_group_view", "sbepp::detail::get_data_view"), ["C01", "C02", "C10"]),
+                                                                     "sbepp::detail::get_group_view", "sbepp::detail::get_data_view"), ["C01", "C02", "C03", "C10"]),
     "checked": (LIB, lambda f: (f.get("cls") or "") == "sbepp::detail::size_bytes_checked_visitor"
                 or (f.get("base") or "").startswith("sbepp::size_bytes_checked"), ["C06"]),
     "fillers": (LIB, lambda f: (f.get("base") or "").split("<")[0] in ("sbepp::fill_message_header", "sbepp::fill_group_header"), ["C17"]),
